@@ -86,8 +86,17 @@ MUTANTS = [
 ]
 
 EQUIVALENT = [
+ # correct code whose cleanup lives only in a finally block: an injected interruption must
+ # never be placed inside (or below) that block
+ ("eq_cleanup_only_in_finally", "C12", [(L, "    _VAR.clear()\n    _PARAMS.clear()\n\n    lexer = blackbirdLexer(data)", "    lexer = blackbirdLexer(data)"),
+                                        (L, "    walker.walk(blackbird, tree)\n\n    return blackbird.program", "    try:\n        walker.walk(blackbird, tree)\n    finally:\n        _VAR.clear()\n        _PARAMS.clear()\n\n    return blackbird.program")]),
+ ("eq_digraph_temporary_keys_removed_in_finally", "C13", [
+     (U, "    grid = {}\n\n    for idx, op in enumerate(program.operations):", "    grid = {}\n    added = []\n    try:\n        for op in program.operations:\n            if 'args' not in op:\n                added.append(op)\n                op['args'] = []\n                op['kwargs'] = {}\n        return _to_DiGraph(program, grid)\n    finally:\n        for op in added:\n            del op['args']\n            del op['kwargs']\n\n\ndef _to_DiGraph(program, grid):\n    for idx, op in enumerate(program.operations):")]),
  ("eq_include_read_with_pathlib", "C07", [(L, "        data = antlr4.FileStream(filename)\n", "        import pathlib\n        data = antlr4.InputStream(pathlib.Path(filename).read_bytes().decode(\"ascii\"))\n")]),
  ("eq_include_read_with_pathlib", "C12", [(L, "        data = antlr4.FileStream(filename)\n", "        import pathlib\n        data = antlr4.InputStream(pathlib.Path(filename).read_bytes().decode(\"ascii\"))\n")]),
+ # bypasses the open() seam: the I/O faults can no longer fire -> the check must say so
+ # (exit 2, "ineffective"), never report a violation
+ ("ineffective_include_read_with_os_open", "C07", [(L, "        data = antlr4.FileStream(filename)\n", "        fd = os.open(filename, os.O_RDONLY)\n        try:\n            data = antlr4.InputStream(os.read(fd, 1 << 24).decode(\"ascii\"))\n        finally:\n            os.close(fd)\n")]),
  ("eq_exists_precheck", "C07", [(L, "        cwd = os.path.dirname(filename)\n        data = antlr4.FileStream(filename)\n", "        cwd = os.path.dirname(filename)\n        if not os.path.exists(filename):\n            raise FileNotFoundError(filename)\n        data = antlr4.FileStream(filename)\n")]),
  ("eq_abspath_resolution", "C07", [(L, "        filename = os.path.join(self._cwd, ctx.STR().getText()[1:-1])\n", "        filename = os.path.abspath(os.path.join(self._cwd, ctx.STR().getText()[1:-1]))\n")]),
  ("eq_clear_in_finally", "C12", [(L, "    walker.walk(blackbird, tree)\n\n    return blackbird.program", "    try:\n        walker.walk(blackbird, tree)\n    finally:\n        _VAR.clear()\n        _PARAMS.clear()\n\n    return blackbird.program")]),
@@ -186,6 +195,8 @@ def main():
             missing = None if a.skip_suite else suite_passes(pkg)
             rc, secs, lines, tail = run_check(prop, pkg, a.runs or RUNS[prop], os.path.join(work, "out"))
             good = (rc == 1) if expect_violation else (rc == 0)
+            if name.startswith("ineffective_"):
+                good = (rc == 2)
             ok = ok and good
             report[name] = {"property": prop, "expect": "violation" if expect_violation else "silent",
                             "exit": rc, "seconds": round(secs, 1), "as_expected": good,
